@@ -105,7 +105,7 @@ Lemma inv5_step_w : forall c s i ch s' l,
 Proof.
   intros c s i ch s' l Hhw HI1 HI2 HI3 HI4 [HJw HJr] H Ht. unfold step_w in H.
   destruct (getw s i) as [pc|] eqn:Hg; [|discriminate]. unfold getw in Hg.
-  assert (Hscx : w_scx pc = true -> closed s = true) by (destruct (i1_w _ HI1 _ _ Hg) as (_ & _ & Hx); exact Hx).
+  assert (Hscx : w_scx pc = true -> conn s = false) by (intros Hx; eapply (i3_scx _ HI3); eauto).
   assert (Hlen : (i < length (ws s))%nat) by (apply nth_error_Some; congruence).
   pose proof (HI4 _ _ Hg) as Hi4. pose proof (i3_c3 _ HI3) as Hc3.
   unfold Jw, Jr in HJw, HJr.
@@ -118,7 +118,10 @@ Proof.
   all: try (split; intros Hc Hw'; right; right; simpl;
             first [ apply existsb_upd_in; [rewrite ?length_ws_add_task; exact Hlen | reflexivity]
                   | eapply existsb_nth; [exact Hg | reflexivity] ]; fail).
-  all: try (specialize (Hscx eq_refl); split; intros Hc Hw'; simpl in *; congruence).
+  all: try (specialize (Hscx eq_refl); destruct (Hc3 Hscx) as [Hcl|Hl];
+            [ split; intros Hc Hw'; simpl in *; congruence
+            | destruct (hc_late_cov _ Hl) as (C1 & C2 & C3 & C4);
+              split; intros Hc Hw'; simpl in *; rewrite ?C1, ?C2, ?C3, ?C4; auto; right; left; tauto ]; fail).
   - (* WAcq -> WIdle *)
     split; intros Hc Hw'; simpl in *.
     + destruct (HJw Hc Hw') as [H1|[H1|H1]]; auto. right; right. eapply existsb_upd_keep; eauto.
